@@ -347,6 +347,19 @@ def run(chk, tier, rng):
     # three instances: model-derived (the known bad pattern and its neighbours) + random
     pattern = [0, 0, 0, 0, 1, 1, 1, 0, 2, 2, 2]
     run_schedule(chk, config, 3, pattern, "pattern")
+    # the same shape one pause later: the first instance is stopped right before its unlink (its descriptor may or may not be
+    # closed by then, depending on where the implementation removes the file), a second one gets in, the first unlinks, a third
+    # one arrives; and with the second instance opening the file before the first has left
+    # (a step performs the action the instance was paused before: four steps of the first instance leave it paused before its
+    # unlink; two steps of another one leave it paused inside)
+    for pat in ([0, 0, 0, 0, 1, 1, 0, 2, 2], [0, 0, 0, 1, 0, 1, 0, 2, 2], [0, 0, 0, 0, 1, 1, 2, 0, 2], [0, 0, 0, 0, 0, 1, 1, 1, 0, 2, 2, 2]):
+        run_schedule(chk, config, 3, pat, "pattern")
+        for k in range(15 if tier == "quick" else 500):
+            s = list(pat)
+            for _ in range(rng.randint(1, 2)):
+                i, j = rng.randrange(len(s)), rng.randrange(len(s))
+                s[i], s[j] = s[j], s[i]
+            run_schedule(chk, config, 3, s, "pattern-neighbour")
     for k in range(60 if tier == "quick" else 2000):
         s = list(pattern)
         for _ in range(rng.randint(0, 3)):
